@@ -4,7 +4,7 @@
 set -u
 export GOFLAGS=-mod=mod GOPROXY=off GOSUMDB=off GOTOOLCHAIN=local
 id=$1; shift
-wt=/tmp/seedwt/$id; out=/tmp/seedout/$id
+wt=${SEEDWT:-/tmp/seedwt}/$id; out=${SEEDOUT:-/tmp/seedout}/$id
 cd $wt || exit 2
 demo_files=$(git status --porcelain | grep '^??' | awk '{print $2}')
 echo "untracked (demo) files: $demo_files"
